@@ -163,10 +163,9 @@ class StatusMonitor:
                 self.log.warning("No stage weight for stage %s. Default to %lf\n" % (stage, fallbackWeight))
                 weights.append(fallbackWeight * 1000)
 
-        # VV: adding floats is hard, let's assume that there're at most 2 decimals
-        int_weights = [int(e * 1000) for e in weights]
-
-        if reduce(operator.add, int_weights) != 1000:
+        # VV: adding floats is hard, accept the weights when none is negative and they add up to 1.0 within a small
+        # tolerance (same test as FlowIR.inject_default_values())
+        if any(e < 0.0 for e in weights) or not abs(sum(weights) - 1.0) <= 1e-9:
             self.log.warning("Stage weights do not add to one: %s = %3.2lf\n" % (weights, reduce(operator.add, weights)))
             self.log.warning("All stage-weights will default to %3.2lf\n" % fallbackWeight)
             weights = [fallbackWeight]*len(self.commands)
